@@ -264,4 +264,94 @@ def finalizeOp (c : Codes) (e : Env) (st : Store) (s : Snap) (self : Bool) (roun
         | .panic => none
       else some st1
 
+/-! ## `validateSnapshotTransaction` (kernel/self.go)
+
+The outer validation of a snapshot's transactions. For every hash, in the order of
+`s.Transactions`, the body is looked up in the persistent store (`ReadTransaction`), then in
+the cache (`CacheGetTransaction`). A persisted body is trusted as a *transaction* (it is not
+validated again) but the kernel snapshot rule is run again on it; a cached body is validated
+(`tx.Validate`), run through the kernel snapshot rule, then locked and persisted. -/
+
+/-- where `validateSnapshotTransaction` finds a body -/
+inductive Loc where
+  | persisted (finIn : Option Nat)   -- in the persistent store; finalized in this snapshot, if any
+  | cached                           -- only in the cache store
+  | absent
+  deriving DecidableEq, Repr
+
+/-- what one iteration of the loop sees -/
+structure Item where
+  tx : Tx
+  loc : Loc
+  valid : Bool       -- answer of `tx.Validate(store, s.Timestamp, finalized)` (cached branch only)
+  vpanic : Bool      -- `tx.Validate` panicked (cached branch only)
+  lockOk : Bool      -- `lockAndPersistTransaction` succeeded (cached branch only)
+  deriving DecidableEq, Repr
+
+structure VResult where
+  decision : Decision
+  found : List Tx
+  missing : Nat
+  newly : List Nat   -- hashes persisted by this call (also when it fails later)
+  deriving DecidableEq, Repr
+
+/-- `validateKernelSnapshot` inside the loop; `typeOk` answers the per-type validator -/
+def kernelStep (c : Codes) (e : Env) (st : Store) (s : Snap) (self : Bool) (round : Nat)
+    (found : List Tx) (fin typeOk : Bool) : Decision :=
+  match validateKernel c e st s self round found fin with
+  | .accept => .accept
+  | .typeCheck => if typeOk then .accept else .reject
+  | .reject => .reject
+  | .panic => .panic
+
+def vstLoop (c : Codes) (e : Env) (st : Store) (s : Snap) (self : Bool) (round : Nat)
+    (fin typeOk : Bool) : List Item → List Tx → Nat → List Nat → VResult
+  | [], found, missing, newly => ⟨.accept, found, missing, newly⟩
+  | it :: rest, found, missing, newly =>
+    match it.loc with
+    | .absent => vstLoop c e st s self round fin typeOk rest found (missing + 1) newly
+    | .persisted finIn =>
+      if !fin && finIn.isSome && finIn != some s.hash then ⟨.reject, found, missing, newly⟩
+      else
+        match kernelStep c e st s self round (found ++ [it.tx]) fin typeOk with
+        | .accept => vstLoop c e st s self round fin typeOk rest (found ++ [it.tx]) missing newly
+        | d => ⟨d, found ++ [it.tx], missing, newly⟩
+    | .cached =>
+      if it.vpanic then ⟨.panic, found, missing, newly⟩
+      else if !it.valid then ⟨.reject, found, missing, newly⟩
+      else
+        match kernelStep c e st s self round (found ++ [it.tx]) fin typeOk with
+        | .accept =>
+          if !it.lockOk then ⟨.reject, found ++ [it.tx], missing, newly⟩
+          else vstLoop c e st s self round fin typeOk rest (found ++ [it.tx]) missing (newly ++ [it.tx.hash])
+        | d => ⟨d, found ++ [it.tx], missing, newly⟩
+
+/-- `validateSnapshotTransaction(s, finalized)`; `items` are the lookups for `s.Transactions`
+    in order -/
+def validateSnapshotTx (c : Codes) (e : Env) (st : Store) (s : Snap) (self : Bool) (round : Nat)
+    (fin typeOk : Bool) (items : List Item) : VResult :=
+  vstLoop c e st s self round fin typeOk items [] 0 []
+
+/-- NOT the code: the loop with the kernel snapshot rule skipped for persisted bodies ("it
+    was validated before it was persisted"). Used only to show that the rule is load-bearing
+    in that branch (`Mixin.C28.persisted_branch_must_revalidate`). -/
+def vstLoopTrusting (c : Codes) (e : Env) (st : Store) (s : Snap) (self : Bool) (round : Nat)
+    (fin typeOk : Bool) : List Item → List Tx → Nat → List Nat → VResult
+  | [], found, missing, newly => ⟨.accept, found, missing, newly⟩
+  | it :: rest, found, missing, newly =>
+    match it.loc with
+    | .absent => vstLoopTrusting c e st s self round fin typeOk rest found (missing + 1) newly
+    | .persisted finIn =>
+      if !fin && finIn.isSome && finIn != some s.hash then ⟨.reject, found, missing, newly⟩
+      else vstLoopTrusting c e st s self round fin typeOk rest (found ++ [it.tx]) missing newly
+    | .cached =>
+      if it.vpanic then ⟨.panic, found, missing, newly⟩
+      else if !it.valid then ⟨.reject, found, missing, newly⟩
+      else
+        match kernelStep c e st s self round (found ++ [it.tx]) fin typeOk with
+        | .accept =>
+          if !it.lockOk then ⟨.reject, found ++ [it.tx], missing, newly⟩
+          else vstLoopTrusting c e st s self round fin typeOk rest (found ++ [it.tx]) missing (newly ++ [it.tx.hash])
+        | d => ⟨d, found ++ [it.tx], missing, newly⟩
+
 end Mixin.ConsensusChain
